@@ -331,8 +331,18 @@ func corrC05(outDir string, seed uint64, tier string, replay string) *report {
 			pan, hung = guarded(func() { crypthash.Unmarshal(in, reflect.New(gt.t).Interface()) })
 			bad("hash.Unmarshal into "+gt.t.String(), in, pan, hung)
 			v := genValue(r, gt, i%5 == 0)
+			if i%2 == 0 { // value form first, pointer form afterwards (and the other way round)
+				pan, hung = guarded(func() { crypthash.Marshal(v.Elem().Interface()) })
+				bad("hash.Marshal of "+gt.t.String()+" (by value)", fmt.Sprintf("%+v", v.Elem().Interface()), pan, hung)
+			}
 			pan, hung = guarded(func() { crypthash.Marshal(v.Interface()) })
 			bad("hash.Marshal of "+gt.t.String(), fmt.Sprintf("%+v", v.Elem().Interface()), pan, hung)
+			if i%2 == 1 {
+				pan, hung = guarded(func() { crypthash.Marshal(v.Elem().Interface()) })
+				bad("hash.Marshal of "+gt.t.String()+" (by value, after the pointer form)", fmt.Sprintf("%+v", v.Elem().Interface()), pan, hung)
+			}
+			pan, hung = guarded(func() { crypthash.Unmarshal(in, reflect.New(gt.t).Interface()) })
+			bad("hash.Unmarshal into "+gt.t.String()+" (second use of the type)", in, pan, hung)
 			rep.bump("generated_layout_calls")
 		}
 		if i%4 == 0 {
